@@ -1,3 +1,4 @@
+mod bthreads;
 mod explore;
 mod ix;
 mod model;
@@ -34,6 +35,34 @@ fn main() {
         "diff" => cmd_diff(&args),
         "dump" => cmd_dump(&args),
         "procenum" => cmd_procenum(&args),
+        "bthreads" => cmd_bthreads(&args),
+        "bthreads-replay" => {
+            let text = std::fs::read_to_string(&args[2]).expect("read");
+            let v: serde_json::Value = serde_json::from_str(&text).expect("json");
+            let scn: bthreads::BScenario = serde_json::from_value(v["scenario"].clone()).expect("scenario");
+            let order: Vec<usize> = serde_json::from_value(v["order"].clone()).expect("order");
+            let mut bad = 0;
+            for k in 0..3 {
+                let run = bthreads::run_order(&scn, &order);
+                let viol = bthreads::check_run(&scn, &run);
+                println!("attempt {k}: {} violation(s)", viol.len());
+                for (c, d) in &viol {
+                    println!("VIOLATED {c}: {d}");
+                }
+                if !viol.is_empty() {
+                    bad += 1;
+                    for o in &run.ops {
+                        println!("   {:?}", o);
+                    }
+                    println!("   handler log {:?}", run.log);
+                }
+            }
+            if bad > 0 {
+                println!("VIOLATION property=C17 replay={}", args[2]);
+                std::process::exit(1);
+            }
+            println!("no violation on this replay");
+        }
         "hash-replay" => {
             let text = std::fs::read_to_string(&args[2]).expect("read");
             let v: serde_json::Value = serde_json::from_str(&text).expect("json");
@@ -349,4 +378,57 @@ fn cmd_procenum(args: &[String]) {
         }
     }
     println!("{}", serde_json::json!({"seq": seq, "results": results}));
+}
+
+fn cmd_bthreads(args: &[String]) {
+    let thorough = arg(args, "--tier").as_deref() == Some("thorough");
+    let shard: usize = arg(args, "--shard").map(|s| s.parse().unwrap()).unwrap_or(0);
+    let nshards: usize = arg(args, "--nshards").map(|s| s.parse().unwrap()).unwrap_or(1);
+    let out = arg(args, "--out");
+    let only = arg(args, "--only");
+    let t0 = std::time::Instant::now();
+    let scns = bthreads::scenarios(thorough);
+    let mut runs = 0u64;
+    let mut opsn = 0u64;
+    let mut distinct: std::collections::HashSet<String> = Default::default();
+    let mut found: Vec<serde_json::Value> = Vec::new();
+    let mut sample = None;
+    let mut k = 0usize;
+    let mut total_orders = 0usize;
+    for scn in &scns {
+        if let Some(o) = &only {
+            if !scn.name.contains(o.as_str()) {
+                continue;
+            }
+        }
+        let lens: Vec<usize> = scn.callers.iter().map(|c| c.ops.len()).collect();
+        let all = bthreads::orders(&lens);
+        total_orders += all.len();
+        for order in all {
+            k += 1;
+            if k % nshards != shard {
+                continue;
+            }
+            let run = bthreads::run_order(scn, &order);
+            runs += 1;
+            opsn += run.ops.len() as u64;
+            let outcome = format!("{}|{:?}|{:?}", scn.name, run.ops.iter().map(|o| (o.caller, o.idx, format!("{:?}", o.res))).collect::<Vec<_>>(), run.log.iter().map(|l| format!("{:?}", l.1)).collect::<Vec<_>>());
+            distinct.insert(outcome);
+            let viol = bthreads::check_run(scn, &run);
+            if sample.is_none() {
+                sample = Some(serde_json::json!({"scenario": scn.name, "order": order, "ops": run.ops, "handler_log": run.log}));
+            }
+            if !viol.is_empty() && found.len() < 3 {
+                // a violation must show again when the same order is run again (threads are free-running)
+                let again = bthreads::check_run(scn, &bthreads::run_order(scn, &order));
+                found.push(serde_json::json!({"scenario": scn, "order": order, "violations": viol, "recurred": !again.is_empty(), "run": run}));
+            }
+        }
+    }
+    let res = serde_json::json!({"prop": "C17", "runs": runs, "ops": opsn, "distinct_outcomes": distinct.len(), "orders_total": total_orders, "scenarios": scns.len(), "found": found, "sample": sample, "wall_s": t0.elapsed().as_secs_f64()});
+    let text = serde_json::to_string(&res).unwrap();
+    match out {
+        Some(f) => std::fs::write(f, text).unwrap(),
+        None => println!("{text}"),
+    }
 }
